@@ -215,7 +215,10 @@ class AsyncWorld(object):
         pats = rec.annot['pats'] if rec.annot else None
         k = self.kernel_state()
         ready = len(k['data'].decode(self.mapping.encoding if self.mapping.unicode_mode else 'latin-1', 'ignore'))
-        rec.emit(e='call', pats=pats, W=expecter.searchwindowsize or 0, tmo=tmo_class(timeout),
+        W = expecter.searchwindowsize or 0
+        if rec.annot and 'W' in rec.annot:
+            W = rec.annot['W']           # the window the caller asked for on this call
+        rec.emit(e='call', pats=pats, W=W, tmo=tmo_class(timeout),
                  exact=hasattr(expecter.searcher, '_strings'), mode='async', ready=ready, t=round(self.loop._vnow - self.t0, 6))
         self.read_log = []
         self.in_async = True
@@ -250,13 +253,26 @@ class AsyncWorld(object):
 
         async def main():
             for c in calls:
-                if 'at' in c:
+                if 'at' in c and c.get('idle') == 'yield':
+                    # the caller does other work on the loop until then ("poll, do other work, poll again"): the loop
+                    # runs while output (and the end of the stream) arrives with no call outstanding
+                    target = max(self.loop._vnow, self.t0 + c['at'])
+                    while self.arrivals and self.arrivals[0][0] <= target + 1e-9:
+                        dt = self.arrivals[0][0] - self.loop._vnow
+                        if dt > 0:
+                            await asyncio.sleep(dt)
+                        self.deliver_due()
+                        for _ in range(3):
+                            await asyncio.sleep(0)
+                    if target > self.loop._vnow:
+                        await asyncio.sleep(target - self.loop._vnow)
+                elif 'at' in c:
                     self.advance_to(max(self.loop._vnow, self.t0 + c['at']))
                 else:
                     self.deliver_due()
                 pats = c['pats']
                 exact = c['fn'] == 'expect_exact'
-                rec.annot = {'pats': pats}
+                rec.annot = {'pats': pats, 'W': c.get('W', 0) or 0}
                 conc = [m.concrete(p, exact) for p in pats]
                 W = c.get('W', 0) or None
                 targ = {'pos': 3.0, 'zero': 0, 'none': None, 'neg': -7, 'default': -1}[c.get('tmo', 'pos')]
